@@ -14,6 +14,7 @@ var c07KnownWitnesses = []c07Case{
 	{Check: "behav", Prog: OptProg{Stages: []string{"put x:=1", "where a", "where b==2"}}, Input: []string{"{a:1,b:2}"}},
 	{Check: "behav", Prog: OptProg{Stages: []string{"fork (=> fork (=> pass => pass) | where a==1 => pass)", "join on a=a"}}, Input: []string{"{a:1}"}},
 	{Check: "behav", Prog: OptProg{Stages: []string{"fork (=> pass => pass)", "count() by k"}}, Input: []string{"{k:1}", "{k:2}"}, SortKey: "k:asc"},
+	{Check: "behav", Prog: OptProg{Stages: []string{"fork (=> pass => sort a)", "join on k=a"}}, Input: []string{"{k:null,a:null}", "{k:1,a:1}"}, SortKey: "k:desc"},
 }
 
 func c07Known(c *Ctx, l *TLake) {
